@@ -178,6 +178,8 @@ def run(ctx) -> None:
   ctx.rule('R3', 'datastores access shared state only inside a single `with self._lock` region per '
            'public method and never call their own public methods', 40)
   ctx.rule('R4', 'all acquisitions of one lock table are keyed by the same kind of resource name (owner / study / trial)', 12)
+  ctx.import_rules('C01', {'R3'}, 'R6', 'what a handler decided on (study state, persisted algorithm state) is read inside the critical section that writes')
+  ctx.import_rules('C05', {'R1', 'R2'}, 'R7', 'SQL backend: each datastore call is one committed transaction (a serial order of calls exists only then)')
   ctx.import_rules('C07', {'R10'}, 'R5', 'a trial write that races with an unlocked DeleteTrial fails instead of re-creating the trial (update never inserts)')
   tables = lock_tables(svc)
   if len(tables) < 3:
